@@ -22,6 +22,8 @@
 
 #include "scheduler.h"
 #include <queue>
+#include <deque>
+#include <algorithm>
 
 namespace tbox {
 namespace coroutine {
@@ -33,13 +35,19 @@ class Channel {
     Channel (Scheduler &sch) : sch_(sch) { }
 
     bool operator >> (T &out) {
-        if (queue_.empty()) {   //! 如果队列里没有，则等待
-            token_.push(sch_.getToken());
-            do {
-                sch_.wait();
-                if (sch_.isCanceled())
-                    return false;
-            } while (queue_.empty());
+        //! 如果队列里没有，则等待
+        //! 每次等待之前都要登记，醒来之后撤销登记，否则被唤醒后抢不到数据的协程将再也不会被唤醒
+        while (queue_.empty()) {
+            auto token = sch_.getToken();
+            token_.push_back(token);
+            sch_.wait();
+            removeToken(token);
+            if (sch_.isCanceled()) {
+                //! 自己被取消了，如果队列里有数据，要把这次唤醒转交给下一个等待者
+                if (!queue_.empty())
+                    wakeOne();
+                return false;
+            }
         }
 
         out = queue_.front();
@@ -48,12 +56,8 @@ class Channel {
     }
 
     Channel& operator << (const T &value) {
-        if (queue_.empty() && !token_.empty()) {
-            auto t = token_.front();
-            token_.pop();
-            sch_.resume(t);
-        }
         queue_.push(value);
+        wakeOne();  //! 只要有等待者就唤醒一个，而不仅仅是在队列由空变为非空的时候
         return *this;
     }
 
@@ -61,10 +65,27 @@ class Channel {
     inline bool size() const { return queue_.size(); }
 
   private:
+    //! 唤醒最早登记的等待者
+    void wakeOne() {
+        if (!token_.empty()) {
+            auto t = token_.front();
+            token_.pop_front();
+            sch_.resume(t);
+        }
+    }
+
+    //! 撤销登记（如果还在的话）
+    void removeToken(const RoutineToken &token) {
+        auto iter = std::find(token_.begin(), token_.end(), token);
+        if (iter != token_.end())
+            token_.erase(iter);
+    }
+
+  private:
     Scheduler &sch_;
 
     std::queue<T> queue_;
-    std::queue<RoutineToken> token_;
+    std::deque<RoutineToken> token_;
 };
 
 }
